@@ -28,6 +28,8 @@ CFG = {
         "Swat4.C09.C09_listing",
         "Swat4.C09.C09_reader_finishes",
         "Swat4.C09.Example.init_s0",
+        "Swat4.C09.facts_ok",
+        "Swat4.C09.start_attempts",
     ],
     "shards": (4, 16),
     "nontrivial": _c09_nontrivial,
